@@ -25,6 +25,14 @@ def run(ctx):
         for k in range(ctx.pick(2, 40)):
             hists.append({"mode": "c02", "target": "logger" if k % 2 == 0 else "bare", "producers": rnd.choice([36, 48, 64]), "msgs": 2, "sink": 5,
                           "noise": "0:0:0:0:", "cores": 0, "seed": rnd.randint(1, 10 ** 9), "burst": 0, "flavour": "plain", "switches": 0})
+    if not ctx.replay:
+        # two independently locked pipelines (Logger + bare), both configured through the fluent keyword API, used at the same time
+        for k in range(ctx.pick(6, 300)):
+            hists.append({"mode": "c02b", "target": "both", "fmt": ["pretty", "pretty", "qt", "default", "json", "pretty"][k % 6],
+                          "producers": rnd.choice([4, 8, 16, 32]), "msgs": rnd.choice([40, 100, 200]), "sink": rnd.choice([0, 1, 2]),
+                          "noise": rnd.choice(conc.NOISES).format(s=rnd.randint(1, 10 ** 6)), "cores": rnd.choice([0, 0, 2]),
+                          "seed": rnd.randint(1, 10 ** 9), "burst": 0, "flavour": ["tsan", "plain", "san", "tsan", "plain", "tsan"][k % 6],
+                          "switches": 0})
     results = conc.run_all(ctx, hists)
     fps = set()
     totals = {"messages": 0, "switches": 0, "handovers": 0, "tsan_reports": 0, "tsan_env_noise": 0, "max_run": 0, "trivial": 0}
@@ -33,7 +41,7 @@ def run(ctx):
     evals = 0
     slow = 0
     for h, r in zip(hists, results):
-        key_ctx = {k: h.get(k) for k in ("target", "producers", "msgs", "sink", "noise", "cores", "flavour", "switches")}
+        key_ctx = {k: h.get(k) for k in ("mode", "target", "fmt", "producers", "msgs", "sink", "noise", "cores", "flavour", "switches")}
         if r["rc"] == "slow":
             slow += 1          # cut off by the wall-clock watchdog while still making progress: inconclusive for this history
             continue
@@ -73,7 +81,8 @@ def run(ctx):
         "rule": "one history = N producers (2..64) x M messages through the synchronous Logger (Qt message handler) or a bare "
                 "OwnThreadHandler<Pipeline>, with a noise profile at the guarded hook points, a sink-duration profile and a CPU-affinity "
                 "restriction, and in a share of the histories a switcher thread that moves the logger to its own thread and back while the producers "
-                "log; non-trivial = the observed serial order switches between producers at least once; distinct by "
+                "log; plus histories in which the Logger and a second, independently locked pipeline (both built with the fluent keyword API) are "
+                "used at the same time; non-trivial = the observed serial order switches between producers at least once; distinct by "
                 "(target, producers, fingerprint of the producer sequence along the serial order)",
         "samples": samples,
         "totals": totals,
